@@ -352,10 +352,11 @@ def mesh_reported_q(run, rng, thorough):
             ph.force_constants = gen.pair_fc(ph.supercell, 1.45 * nn_distance(ph.primitive))
             fac = ph.unit_conversion_factor
             info0 = dict(cell=name, mesh=mesh, is_gamma_center=gc, build=build, nac=None)
-            ph.run_mesh(mesh, with_eigenvectors=True, is_gamma_center=gc)
+            ph.run_mesh(mesh, with_eigenvectors=True, is_gamma_center=gc, with_group_velocities=True)
             md = ph.get_mesh_dict()
             qs = np.array(md["qpoints"])
             stored = (np.array(md["frequencies"]), np.array(md["eigenvectors"]))
+            mesh_gv = np.array(md["group_velocities"])
             ph.init_mesh(mesh, with_eigenvectors=True, is_gamma_center=gc, use_iter_mesh=True)
             itf, itv = [], []
             for f_, v_ in ph.mesh:
@@ -369,9 +370,14 @@ def mesh_reported_q(run, rng, thorough):
             far = [i for i in sel if np.abs(qs[i]).max() > 0.5 + 1e-9]
             if len(sel) > 40:
                 sel = sorted(set(far[:30] + [int(x) for x in np.linspace(0, len(qs) - 1, 10)]))
-            ph.run_qpoints(qs[sel], with_eigenvectors=True, with_dynamical_matrices=True)
+            ph.run_qpoints(qs[sel], with_eigenvectors=True, with_dynamical_matrices=True, with_group_velocities=True)
             dq = ph.get_qpoints_dict()
             for n_, i in enumerate(sel):
+                gq = np.asarray(dq["group_velocities"][n_])
+                run.count("mesh group velocities vs run_qpoints", section="oracle")
+                if not _close(mesh_gv[i], gq, scale=max(1.0, float(np.abs(gq).max()))):
+                    run.violation("Mesh._set_group_velocities", "gv-differ-across-paths", "group velocities of a mesh q-point differ from run_qpoints at the same q by %.3g" % np.abs(mesh_gv[i] - gq).max(),
+                                  dict(info0, q=qs[i].tolist()))
                 D = np.asarray(dq["dynamical_matrices"][n_])
                 Dd = np.array(ph.get_dynamical_matrix_at_q(qs[i]))
                 scale = max(1.0, float(np.abs(D).max()))
@@ -393,6 +399,215 @@ def mesh_reported_q(run, rng, thorough):
     if n_out == 0:
         run.broke("harness", "no mesh q-point outside [-0.5, 0.5] was generated (the mesh-at-reported-q oracle would be vacuous)")
     switch_build("omp")
+
+
+# --------------------------------------------------------------------------
+# Gamma with NAC (which approach direction each path uses), group-velocity perturbation, writers' field lists
+# --------------------------------------------------------------------------
+
+def gamma_and_writers(run, rng, thorough, lines, expect):
+    import h5py
+
+    G = np.zeros(3)
+    for method in (["wang", "gonze"] if thorough else [rng.choice(["wang", "gonze"])]):
+        for build in ("omp", "ser"):
+            switch_build(build)
+            ph = build_nac_phonon("wurtzite", [2, 1, 1], method)
+            dmo = ph.dynamical_matrix
+            fac = ph.unit_conversion_factor
+            user = np.array([0.0, 0.0, 1.0])
+            seg = [[0.5, 0, 0], [0.25, 0, 0], [0, 0, 0]]
+            segdir = np.array(seg[0]) - np.array(seg[-1])
+            cand = {}
+            for lab, d in (("none", None), ("user", user), ("segment", segdir)):
+                dmo.run(G, q_direction=d)
+                cand[lab] = np.linalg.eigvalsh(np.array(dmo.dynamical_matrix))
+            distinct = not _close(cand["none"], cand["user"]) and not _close(cand["user"], cand["segment"]) and not _close(cand["none"], cand["segment"])
+            if ph._group_velocity is None:
+                ph._set_group_velocity()
+            gvo = ph._group_velocity
+            hs = np.array([0.0, 0.0, 0.25])   # on the hexagonal axis: degenerate bands, site-symmetry average matters
+            gcand = {}
+            for lab, d in (("none", None), ("user", user)):
+                gvo.run([G, hs], perturbation=d)
+                gcand[lab] = np.array(gvo.group_velocities)
+            info0 = dict(cell="wurtzite", nac=method, build=build)
+            obs = []
+            for u in (False, True):
+                ph.run_qpoints([G, hs], with_group_velocities=True, nac_q_direction=user if u else None)
+                dq = ph.get_qpoints_dict()
+                obs.append(("qpoints", u, False, _lam(dq["frequencies"][0], fac), np.array(dq["group_velocities"])))
+                dmo.run(G, q_direction=user if u else None)
+                obs.append(("direct", u, False, np.linalg.eigvalsh(np.array(dmo.dynamical_matrix)), None))
+            ph.run_band_structure([seg], with_group_velocities=True)
+            db = ph.get_band_structure_dict()
+            gvo.run([G])
+            g_none_G = np.array(gvo.group_velocities)[0]
+            obs.append(("band", False, True, _lam(db["frequencies"][0][-1], fac), ("G-only", np.array(db["group_velocities"][0][-1]), g_none_G)))
+            ph.run_mesh([3, 3, 3], is_gamma_center=True, with_group_velocities=True)
+            md = ph.get_mesh_dict()
+            ig = int(np.argmin(np.abs(md["qpoints"]).sum(axis=1)))
+            obs.append(("mesh", False, False, _lam(md["frequencies"][ig], fac), ("G-only", np.array(md["group_velocities"][ig]), g_none_G)))
+            ph.init_mesh([3, 3, 3], is_gamma_center=True, use_iter_mesh=True, with_eigenvectors=True)
+            itf = [np.array(f_) for f_, _ in ph.mesh]
+            obs.append(("itermesh", False, False, _lam(itf[ig], fac), None))
+            for path, u, sg, lam, gv in obs:
+                lines.append("gammadir %s %d %d" % (path, int(u), int(sg)))
+                expect.append(("gammadir", (lam, gv, cand, gcand, distinct), dict(info0, path=path, user_direction_given=u, segment_through_gamma=sg)))
+                run.case(("gammadir", method, build, path, u, sg), nontrivial=distinct)
+    # ---- writers: which optional fields the files contain, for every option set
+    switch_build("omp")
+    import phonopy
+    cell, _ = gen.make_cell("cscl")
+    ph = phonopy.Phonopy(cell, supercell_matrix=np.diag([2, 1, 1]), primitive_matrix="P", log_level=0)
+    ph.force_constants = gen.pair_fc(ph.supercell, 1.45 * nn_distance(ph.primitive))
+    qs = [[0.1, 0.2, 0.3]]
+    pth = [[[0.1, 0, 0], [0.3, 0.1, 0]]]
+    keys = ["frequency", "eigenvector", "group_velocity", "dynamical_matrix"]
+
+    def fields_of(yaml_file, h5_file):
+        txt = open(yaml_file).read()
+        fy = [k for k in keys if re.search(r"^\s*%s:" % k, txt, re.M)]
+        with h5py.File(h5_file, "r") as h:
+            fh = [k for k in keys if k in h]
+        return fy, fh
+
+    with tempfile.TemporaryDirectory() as td:
+        cwd = os.getcwd()
+        os.chdir(td)
+        try:
+            for e, g, d, c in itertools.product([False, True], repeat=4):
+                ph.run_qpoints(qs, with_eigenvectors=e, with_group_velocities=g, with_dynamical_matrices=d)
+                ph.write_yaml_qpoints_phonon()
+                ph.write_hdf5_qpoints_phonon()
+                fy, fh = fields_of("qpoints.yaml", "qpoints.hdf5")
+                ph.run_mesh([2, 2, 2], with_eigenvectors=e, with_group_velocities=g)
+                ph.write_yaml_mesh()
+                ph.write_hdf5_mesh()
+                my, mh = fields_of("mesh.yaml", "mesh.hdf5")
+                ph.run_band_structure(pth, with_eigenvectors=e, with_group_velocities=g, is_band_connection=c)
+                ph.write_yaml_band_structure()
+                ph.write_hdf5_band_structure()
+                by, bh = fields_of("band.yaml", "band.hdf5")
+                for w, got in (("qpoints_yaml", fy), ("qpoints_hdf5", fh), ("mesh_yaml", my), ("mesh_hdf5", mh), ("band_yaml", by), ("band_hdf5", bh)):
+                    lines.append("written %s %d %d %d %d" % (w, int(e), int(g), int(d), int(c)))
+                    expect.append(("written", " ".join(got), dict(writer=w, with_eigenvectors=e, with_group_velocities=g, with_dynamical_matrices=d, is_band_connection=c)))
+                    run.case(("written", w, e, g, d, c), nontrivial=(e + g + d + c) >= 1)
+                    # the property: the file has a field iff it was requested (band: eigenvectors also with band connection)
+                    want = ["frequency"] + (["eigenvector"] if (e or (c and w.startswith("band"))) else []) + (["group_velocity"] if g else []) + (["dynamical_matrix"] if (d and w.startswith("qpoints")) else [])
+                    if got != want:
+                        run.violation("write_%s" % w, "written-fields", "file contains fields %s, requested %s" % (got, want), dict(writer=w, e=e, g=g, d=d, c=c))
+        finally:
+            os.chdir(cwd)
+
+
+def check_gammadir(run, ans, payload, info):
+    lam, gv, cand, gcand, distinct = payload
+    m = re.match(r"freq=(\w+) gv=(\w+) sym=(\w+) offers_gv=(\w+)$", ans)
+    if not m:
+        run.broke("correspondence", "gammadir: unexpected model answer %s" % ans, info)
+        return
+    run.count("gamma-direction rows", section="correspondence")
+    if not _close(np.sort(lam), cand[m.group(1)]):
+        which = [k for k, v in cand.items() if _close(np.sort(lam), v)]
+        run.broke("correspondence", "frequencies at Gamma: model says direction `%s`, implementation matches %s" % (m.group(1), which or "none of the candidates"), info)
+    if gv is not None:
+        if isinstance(gv, tuple):
+            _, got, ref_ = gv
+            ok = _close(got, ref_, scale=max(1.0, float(np.abs(ref_).max())))
+        else:
+            ref_ = gcand[m.group(2)]
+            ok = _close(gv, ref_, scale=max(1.0, float(np.abs(ref_).max())))
+        if not ok:
+            run.broke("correspondence", "group velocities: model says perturbation `%s`, implementation differs from GroupVelocity.run with that perturbation" % m.group(2), info)
+
+
+# --------------------------------------------------------------------------
+# call sequences on one Phonopy instance vs a fresh instance per call (cached GroupVelocity / DynamicalMatrix state)
+# --------------------------------------------------------------------------
+
+_SEQ_CELLS = {
+    # name -> (prototype, atom count limit irrelevant, supercell, zone-boundary / degenerate q-points in primitive coordinates)
+    "diamond": ("diamond", [1, 1, 1], [[0, 0.5, 0.5], [0.25, 0.5, 0.75], [0.5, 0.5, 0.5]]),
+    "zincblende": ("zincblende_prim", [2, 2, 2], [[0, 0.5, 0.5], [0.25, 0.5, 0.75], [0.5, 0.5, 0.5]]),
+    "hcp": ("hcp", [2, 2, 1], [[0, 0, 0.5], [1.0 / 3, 1.0 / 3, 0.5], [0.5, 0, 0.5]]),
+    "nacl": ("nacl_prim", [2, 2, 2], [[0, 0.5, 0.5], [0.25, 0.5, 0.75], [0.5, 0.5, 0.5]]),
+}
+_FC_CACHE = {}
+
+
+def _seq_phonon(key):
+    import phonopy
+
+    proto, smat, _ = _SEQ_CELLS[key]
+    cell, cen = gen.make_cell(proto)
+    ph = phonopy.Phonopy(cell, supercell_matrix=np.diag(smat), primitive_matrix="auto" if cen != "P" else "P", log_level=0)
+    if key not in _FC_CACHE:
+        _FC_CACHE[key] = gen.pair_fc(ph.supercell, 1.45 * nn_distance(ph.primitive))
+    ph.force_constants = _FC_CACHE[key].copy()
+    if key == "nacl":
+        z = np.array([np.eye(3) * 1.1, -np.eye(3) * 1.1])
+        ph.nac_params = {"born": z, "dielectric": np.eye(3) * 2.4, "factor": 14.4, "method": "wang"}
+    return ph
+
+
+def _seq_call(ph, spec, qpts):
+    kind, e, g, d = spec
+    if kind == "qpoints":
+        ph.run_qpoints(qpts, with_eigenvectors=e, with_group_velocities=g, nac_q_direction=d)
+        r = ph.get_qpoints_dict()
+        return dict(f=np.array(r["frequencies"]), gv=None if r["group_velocities"] is None else np.array(r["group_velocities"]),
+                    ev=None if r["eigenvectors"] is None else np.array(r["eigenvectors"]))
+    if kind == "band":
+        ph.run_band_structure([qpts], with_eigenvectors=e, with_group_velocities=g)
+        r = ph.get_band_structure_dict()
+        return dict(f=np.array(r["frequencies"][0]), gv=None if r["group_velocities"] is None else np.array(r["group_velocities"][0]),
+                    ev=None if r["eigenvectors"] is None else np.array(r["eigenvectors"][0]))
+    ph.run_mesh([4, 4, 4], is_gamma_center=True, with_eigenvectors=e, with_group_velocities=g)
+    r = ph.get_mesh_dict()
+    return dict(f=np.array(r["frequencies"]), gv=None if r["group_velocities"] is None else np.array(r["group_velocities"]),
+                ev=None if r["eigenvectors"] is None else np.array(r["eigenvectors"]))
+
+
+def call_sequences(run, rng, thorough, lines, expect):
+    U_ = [1, 0, 0]
+    fixed = [
+        [("qpoints", False, True, U_), ("qpoints", False, True, None), ("band", False, True, None), ("mesh", False, True, None)],      # (a)
+        [("band", False, True, None), ("mesh", True, True, None), ("qpoints", False, True, None)],                                        # (b)
+        [("qpoints", True, True, U_), ("mesh", False, False, None), ("qpoints", True, False, None), ("mesh", False, True, None)],          # (c)
+    ]
+    kinds = ["qpoints", "band", "mesh"]
+    keys = ["diamond", rng.choice(["zincblende", "hcp", "nacl"])] + (["zincblende", "hcp", "nacl"] if thorough else [])
+    for key in keys:
+        qpts = np.array(_SEQ_CELLS[key][2], dtype="double")
+        seqs = list(fixed)
+        for _ in range(6 if thorough else 2):
+            seqs.append([(rng.choice(kinds), rng.random() < 0.5, rng.random() < 0.8, rng.choice([None, None, U_, [0, 1, 1]])) for _ in range(rng.randint(3, 5))])
+        fresh = {}
+        for seq in seqs:
+            seq = [(k, e, g, d if k == "qpoints" else None) for k, e, g, d in seq]
+            ph = _seq_phonon(key)
+            lines.append("gvseq %d %s" % (len(seq), " ".join("1" if (d is not None and g) else "0" for k, e, g, d in seq)))
+            expect.append(("gvseq", " ".join("user" if (d is not None and g) else "none" for k, e, g, d in seq), dict(crystal=key, sequence=seq)))
+            for n_, spec in enumerate(seq):
+                got = _seq_call(ph, spec, qpts)
+                fk = repr(spec)
+                if fk not in fresh:
+                    fresh[fk] = _seq_call(_seq_phonon(key), spec, qpts)
+                ref = fresh[fk]
+                run.count("call-sequence steps vs fresh object", section="oracle")
+                run.case(("callseq", key, repr(seq[:n_ + 1])), nontrivial=n_ > 0)
+                info = dict(crystal=key, supercell=_SEQ_CELLS[key][1], qpoints=qpts.tolist(), sequence=[list(x) for x in seq[:n_ + 1]], step=n_)
+                bad = None
+                if not _close(got["f"], ref["f"]):
+                    bad = "frequencies"
+                elif (got["gv"] is None) != (ref["gv"] is None) or (got["gv"] is not None and not _close(got["gv"], ref["gv"], scale=max(1.0, float(np.abs(ref["gv"]).max())))):
+                    bad = "group velocities (max difference %.3g)" % (float(np.abs(got["gv"] - ref["gv"]).max()) if got["gv"] is not None and ref["gv"] is not None else float("nan"))
+                elif (got["ev"] is None) != (ref["ev"] is None) or (got["ev"] is not None and not _close(got["ev"], ref["ev"])):
+                    bad = "eigenvectors"
+                if bad:
+                    run.violation("Phonopy.run_%s" % ("band_structure" if spec[0] == "band" else spec[0]), "depends-on-call-history",
+                                  "%s of this call differ from the same call on a fresh Phonopy object: state left by an earlier call on the same instance leaks" % bad, info)
 
 
 def main(run):
@@ -428,7 +643,7 @@ def main(run):
         _viol(site, klass, what, case)
 
     run.violation = violation_once
-    ncases = 10 if thorough else 3
+    ncases = 20 if thorough else 3
     cases = []
     for k in range(ncases):
         c = make_case(rng, thorough)
@@ -665,11 +880,56 @@ def main(run):
     multi_lines = []
     multi_segment_band(run, rng, thorough, multi_lines, multi_expect)
 
+    # ---------------- Gamma with NAC per path, group-velocity perturbation, writers' field lists
+    gamma_and_writers(run, rng, thorough, multi_lines, multi_expect)
+
+    # ---------------- call sequences on one instance vs fresh instances
+    call_sequences(run, rng, thorough, multi_lines, multi_expect)
+
     # ---------------- mesh eigenvectors at the reported q (relocated q-points outside [-0.5, 0.5])
     mesh_reported_q(run, rng, thorough)
 
     # ---------------- direct tests of estimate_band_connection on structured overlaps (exact zeros)
     import phonopy.phonon.band_structure as BS
+    # which text the greedy loop has (maxval = 0 / -1): read off its behaviour on the model's counterexample matrix
+    zex = np.array([[6049, 2065, 5327, 5547], [1043, 4541, 6651, 5835], [4630, 6398, 1562, 5932], [6394, 5846, 4994, 0]]) / 10000.0
+    try:
+        bc_fixed = sorted(BS.estimate_band_connection(np.eye(4), zex, [0, 1, 2, 3])) == [0, 1, 2, 3]
+    except UnboundLocalError:
+        bc_fixed = False
+    run.cov["correspondence"]["band_connection_revision"] = "maxval=-1 (repaired)" if bc_fixed else "maxval=0 (pinned)"
+    # orthogonal matrices with a single exact zero in the last row (a zero that is not part of a symmetry block)
+    n_sent = 0
+    for t in range(20000 if thorough else 3000):
+        n = rng.choice([4, 5, 6, 6])
+        r_ = np.random.RandomState(rng.randint(0, 10**9))
+        last = np.zeros(n)
+        last[:n - 1] = r_.randn(n - 1)
+        last /= np.linalg.norm(last)
+        Qs = [last]
+        for i in range(n - 1):
+            v = r_.randn(n)
+            for q_ in Qs:
+                v -= (v @ q_) * q_
+            Qs.append(v / np.linalg.norm(v))
+        U = np.array(Qs[1:] + [Qs[0]])
+        U[n - 1, n - 1] = 0.0
+        prev = list(range(n))
+        try:
+            out_ = list(BS.estimate_band_connection(np.eye(n), U, prev))
+            err = None
+        except UnboundLocalError:
+            out_, err = None, "unbound"
+        failing = bool(err) or sorted(out_) != list(range(n))
+        if (failing and n_sent < 60) or t < 30:
+            n_sent += 1
+            conn_checks.append((np.abs(U), prev, out_ if err is None else "unbound", dict(kind="orthogonal-one-zero", n=n, eigvecs=U.tolist(), prev=prev)))
+            run.case(("conn-one-zero", n, U.tobytes()), nontrivial=True)
+        run.count("band-connection one-zero orthogonal probes", section="oracle")
+        if failing:
+            run.violation("estimate_band_connection", "not-a-permutation",
+                          "greedy matching returned %s for an orthogonal overlap matrix with one exact zero: a band is reported twice, another dropped" % (out_ if err is None else "UnboundLocalError"),
+                          dict(n=n, prev_eigvecs="identity", eigvecs=U.tolist(), prev_band_order=prev))
     nprobe = 200 if thorough else 60
     for t in range(nprobe):
         n = rng.choice([2, 3, 4, 5, 6])
@@ -721,7 +981,7 @@ def main(run):
         expect.append((kind, got, info))
     for metric, prev, out_, info in conn_checks:
         n = len(prev)
-        lines.append("conn %d %s %s" % (n, " ".join(qx(float(x)) for x in metric.ravel()), " ".join(map(str, prev))))
+        lines.append("conn %d %d %s %s" % (int(bc_fixed), n, " ".join(qx(float(x)) for x in metric.ravel()), " ".join(map(str, prev))))
         expect.append(("conn", out_, info))
     for k, x, s_, info in round_checks:
         lines.append("round %d %s" % (k, qx(x)))
@@ -736,6 +996,19 @@ def main(run):
         run.count(kind, section="correspondence")
         if ans == "bad-op":
             run.broke("correspondence", "model rejected request", dict(request=req[:200]))
+            continue
+        if kind == "gvseq":
+            run.count("gv call-sequence rows", section="correspondence")
+            if ans.strip() != got:
+                run.broke("correspondence", "group-velocity direction per call: model `%s`, expected `%s`" % (ans.strip(), got), info)
+            continue
+        if kind == "gammadir":
+            check_gammadir(run, ans.strip(), got, info)
+            continue
+        if kind == "written":
+            run.count("writer field rows", section="correspondence")
+            if ans.strip() != got:
+                run.broke("correspondence", "writer %s: file has fields `%s`, model `%s`" % (info["writer"], got, ans.strip()), info)
             continue
         if kind == "banddirs":
             check_banddirs(run, ans.strip(), got, info)
@@ -756,7 +1029,7 @@ def main(run):
             if mo != list(got):
                 run.broke("correspondence", "band order: implementation %s, model %s" % (got, mo), info)
             if m.group(4) != "true":
-                run.broke("correspondence", "band-order certificate isPermB false on the implementation's overlap matrix", info)
+                run.count("band-order certificate false (model and implementation agree; the property fails)", section="correspondence")
                 run.violation("estimate_band_connection", "not-a-permutation", "band order %s is not a permutation" % (got,), info)
         elif kind == "round":
             k, x, s_ = got
